@@ -45,6 +45,11 @@ REQUIRED_THEOREMS = [
     "C10_kl_nonneg_none", "C10_kl_nonneg_mixed_none", "C10_pureBorn_dense", "C10_mixedBorn_dense", "C10_nll_born", "C10_nll_born_mixed",
     "C10_nll_formula_born", "C10_nll_formula_born_mixed", "C10_kl_nonneg_rbm", "C10_kl_nonneg_rbm_pos", "C10_kl_nonneg_mixed_rbm",
     "C10_fid_mixed_self_rbm", "C10_fid_mixed_rbm", "C10_fid_space_perm", "C10_kl_space_perm",
+    # x-packages: non-default dictionaries (states constructed with unitary_dict=create_dict(**kw); the driver runs Metrics.userDict kw)
+    "C10_userDict_nil", "C10_userDict_registered", "C10_userDict_untouched", "C10_userDict_unitary", "C10_userDict_Z",
+    "C10_userDict_siteUs", "C10_userDict_siteUs_fast", "C10_nll_born_rbm_dict", "C10_nll_born_rbm_mixed_dict",
+    "C10_nll_born_rbm_userDict", "C10_nll_born_rbm_mixed_userDict", "C10_kl_nonneg_rbm_userDict", "C10_kl_nonneg_mixed_rbm_userDict",
+    "C10_kl_formula_dense",
 ]
 EXTRA_TRUSTED = [
     "np.linalg.eigvals is external to the model (its result is an argument of fidelityMixed); the harness checks every "
@@ -60,8 +65,8 @@ EXTRA_TRUSTED = [
 THEOREMS = {
     "fid_pure": "C10_fid_overlap, C10_fid_range, C10_fid_self, C10_fid_phase_invariant",
     "fid_mixed": "C10_fid_mixed_uhlmann, C10_fid_mixed_range",
-    "kl": "C10_kl_formula, C10_kl_formula_one, C10_kl_nonneg, C10_kl_self_zero",
-    "nll": "C10_nll_formula, C10_nll_formula_born",
+    "kl": "C10_kl_formula, C10_kl_formula_one, C10_kl_formula_dense, C10_kl_nonneg, C10_kl_self_zero, C10_userDict_registered",
+    "nll": "C10_nll_formula, C10_nll_formula_born, C10_nll_born_rbm_userDict",
     "kind": "C10_kind",
 }
 RULE = ("case = (op in {fidelity, KL, NLL}, state kind in {pos, cplx, dens}, n<=3 (4 thorough), h, a, parameters = scale*N(0,1) with all "
